@@ -258,7 +258,21 @@ def queries_for(pid):
             for i in v:
                 d[S[i]] = d.get(S[i], 0) + 1
             return [[str(d[s_])] for s_ in sorted(d, reverse=True)]
+        def by_count_desc(v, k):
+            d = {}
+            for i in v:
+                c, s_ = d.get(S[i], (0, 0)); d[S[i]] = (c + 1, s_ + S[i])
+            return [[str(a), str(s_)] for a, (c, s_) in sorted(d.items(), key=lambda kv: (kv[1][0], kv[0]))]
+
+        def spread(v, k):
+            d = {}
+            for i in v:
+                d[S[i]] = d.get(S[i], 0) + 1
+            return [[str(a), '0', str(c)] for a, c in d.items()]
         return [('size, count(*), sum(size) from R0 group by size', grp(size), False),
+                # an aggregate that is an ordering key without being selected; arithmetic between two aggregates of the group
+                ('size, sum(size) from R0 group by size order by count(*), size', by_count_desc, True),
+                ('size, max(size) - min(size), count(*) from R0 group by size', spread, False),
                 ('count(*) from R0 group by size order by size desc', counts_by_size_desc, True),       # an ordering key need not be selected
                 ('count(*) from R0 group by size', counts_only, False),
                 ('length(name), count(*), sum(size) from R0 group by length(name)', grp(lambda i: len(N[i])), False),
@@ -267,6 +281,8 @@ def queries_for(pid):
                 ('size, count(*), sum(size) from R0 group by size order by sum(size) desc, size', lambda v, k: sorted(grp(size)(v, k), key=lambda r: (-int(r[2]), int(r[0]))), True)]
     if pid == 'C15':
         return [('name from R0 where size = 15 / 2 or 8 < size', lambda v, k: _rows([i for i in v if S[i] == 7.5 or 8 < S[i]], [name]), False),   # a fraction is not cut; a literal may stand on the left
+                # a negated column twice in one row; a sign directly after a bracket and after a comparison operator
+                ('name, -size, -size * 2, (-size + 3) * 2 from R0 where size - 30 < -size', lambda v, k: _rows([i for i in v if S[i] - 30 < -S[i]], [name, lambda i: -S[i], lambda i: -S[i] * 2, lambda i: (-S[i] + 3) * 2]), False),
                 ('name, size * 2 + 1, -size, size - 100 from R0', lambda v, k: _rows(v, [name, lambda i: S[i] * 2 + 1, lambda i: -S[i], lambda i: S[i] - 100]), False),
                 ('size - 1, size + 1, (size + 1) * 2, size + 1 * 2 from R0', lambda v, k: _rows(v, [lambda i: S[i] - 1, lambda i: S[i] + 1, lambda i: (S[i] + 1) * 2, lambda i: S[i] + 2]), False),
                 ('name from R0 where size % 7 = 0 and size / 7 >= 1', lambda v, k: _rows([i for i in v if S[i] % 7 == 0 and S[i] / 7 >= 1], [name]), False)]
